@@ -621,11 +621,23 @@ impl Session {
             )
         })?;
 
+        let commit_epoch = match self.tx_manager.commit(tx_id) {
+            Ok(epoch) => epoch,
+            Err(e) => {
+                // A refused commit leaves nothing behind: undo what the transaction did,
+                // exactly as rollback() does.
+                self.store.discard_uncommitted_versions(tx_id);
+                #[cfg(feature = "rdf")]
+                self.rdf_store.rollback_tx(tx_id);
+                let _ = self.tx_manager.abort(tx_id);
+                return Err(e);
+            }
+        };
+
         // Commit RDF store pending operations
         #[cfg(feature = "rdf")]
         self.rdf_store.commit_tx(tx_id);
 
-        let commit_epoch = self.tx_manager.commit(tx_id)?;
         // Keep the store's epoch in step with the transaction manager: versions are
         // stamped with the manager's epochs, and the store reads at its own.
         self.store.advance_epoch_to(commit_epoch);
